@@ -31,7 +31,10 @@ pub fn notification_path(repo_dir: &Path) -> PathBuf {
 pub fn read_notification(repo_dir: &Path) -> Result<Notif, String> {
     let path = notification_path(repo_dir);
     let bytes = std::fs::read(&path).map_err(|e| format!("cannot read {}: {e}", path.display()))?;
-    let nf = NotificationFile::parse(bytes.as_slice()).map_err(|e| format!("notification does not parse: {e}"))?;
+    let nf = NotificationFile::parse(bytes.as_slice()).map_err(|e| {
+        let text = String::from_utf8_lossy(&bytes);
+        format!("notification does not parse: {e}; {} bytes; head: {:?}; tail: {:?}", bytes.len(), text.chars().take(200).collect::<String>(), text.chars().rev().take(120).collect::<String>().chars().rev().collect::<String>())
+    })?;
     let snap_uri = nf.snapshot().uri().to_string();
     let snap_path = local_path(repo_dir, &snap_uri).ok_or_else(|| format!("snapshot uri {snap_uri} outside base"))?;
     let snap_bytes =
